@@ -151,7 +151,7 @@ Proof.
     + symmetry. apply N.ltb_ge. lia.
 Qed.
 
-(* a new chunk is admitted only within the limits, and the total does not wrap *)
+(* a new chunk is letin only within the limits, and the total does not wrap *)
 Lemma ingest_newline_limits cl cl' : ingest_newline cl 10 = (cl', 0) -> cl_size cl <> 0 ->
   cl_total cl' = cl_total cl + cl_size cl /\ cl_total cl + cl_size cl <= SIZE_MAX /\ cl_size cl + 2 <= SIZE_MAX /\
   (0 < cl_maxsz cl -> cl_total cl' <= cl_maxsz cl) /\ cl_maxsz cl' = cl_maxsz cl /\ cl_state cl' = CS_DATA.
@@ -172,7 +172,7 @@ Proof.
   apply orb_false_iff in G3. destruct G3 as [G4 G5]. apply N.ltb_ge in G4, G5. lia.
 Qed.
 
-(* the total of the admitted chunks never exceeds the configured maximum *)
+(* the total of the letin chunks never exceeds the configured maximum *)
 Definition total_ok (cl : chunks) : Prop := cl_maxsz cl = 0 \/ cl_total cl <= cl_maxsz cl.
 
 Lemma ingest_char_total cl c cl' rv : ingest_char cl c = (cl', rv) -> total_ok cl ->
